@@ -17,6 +17,15 @@ CLAIMED['C13'] = dict(category='proof',
 CLAIMED['C08'] = dict(category='proof',
     text='Contracts on the real grid helpers for N = 1,2,3 (unsigned coordinates, full 32-bit domain): offset == x + y*w + z*(w*h); in_range_dim; min_less_sup; range_dim; range_size and pos_range::size == product of the extents (0 for an empty range); end_position; next_position and pos_iterator++ == the row-major successor with carry inside [min,sup), equal to end() exactly after the last in-range position; make_pos_range; clamped_min/sup/sup_signed per component. Bijection: offset(0) == 0 and offset(next_position(p)) == offset(p) + 1 for every in-range p of the whole-grid range, proved for N = 1,2,3 with uninterpreted products plus instances of the ring lemmas DIST/COMM/ZERO/ONE, each of which is itself proved for 32-bit machine multiplication (cvc5/z3). pos_ref_iterator (real grid::object<int,N> iterator type over a static cell array): * refers to the cell at offset(pos,size), ++ moves to the successor, one step from every in-range state (bounded: extents <= 16/64).',
     note='(M) induction over the successor relation turns the step contracts into: the range visits every min <= p < sup exactly once in storage order, size() is the number visited, offset is a bijection onto [0, content). Products in the size contracts are uninterpreted (ufmul units): the proof holds for every binary operation in place of *. Not decided here: grid::object heap operations resize/map/apply/fill/at_optional on std::vector storage (std::vector code under a symbolic size did not close), interpolate, output.')
+CLAIMED['C18'] = dict(category='proof',
+    text='Contracts (full machine domain) on make_int_range / make_int_range_count / int_iterator for int8, uint8, int, unsigned, long and a strong typedef: begin == b, end == max(b,e), ++ is +1, == compares values, size() == number of elements whenever representable; enum ranges (make_range, make_range_start, make_range_start_end, enum iterator) incl. a real loop over the closed sub-range; moore/neumann neighbours (exactly the 8/4 positions). Bounded parts: cyclic_iterator on a static array (boundary lengths 1-8 and 64 at every offset, |d| <= 10^12): ++/-- are the +-1 steps with wrap, advance(d) lands inside the boundary at the position congruent to k+d; spiral range for Manhattan distance 0..3 (4 thorough) from a symbolic origin: every point within the distance exactly once, rings non-decreasing, origin first.',
+    note='(M) induction over the iterator step gives the enumerated sequences. Spiral range and cyclic_iterator are bounded stand-ins (stated bounds), not proofs for all distances/lengths. Not decided: iterator::range, adapt_range, range::size.')
+CLAIMED['C17'] = dict(category='proof',
+    text='strong_typedef operators (+ - * & | ^ and assigning forms, unary - ~ ++ --, all six comparisons) over int, unsigned, long: each has the contract result.get() == the same operator on the underlying values, preconditions exclude exactly the UB cases of the underlying operator (products uninterpreted, so the operands are pinned). For optional, either, variant, tuple, array, strong_typedef, static vector/dim/matrix, box, sphere, reference: == has the contract "holds exactly when all observable components are equal", != is its negation; lemmas over three fully symbolic values: == is reflexive/symmetric/transitive, < is irreflexive, asymmetric, transitive, incomparability is transitive and coincides with ==, a == b implies hash(a) == hash(b). grid<int,2> ==, !=, < on std::vector storage as a bounded check (extents <= 2).',
+    note='Not decided: tree, raw_vector, shared_ptr/unique_ptr, record, enum array, recursive, type_iso (heap or not built). bitfield == / hash coherence is proved under C10. Products are uninterpreted in the strong_typedef unit.')
+CLAIMED['C12'] = dict(category='proof',
+    text='The real parse::detail::stream<char> / <wchar_t> (through parse::get_char / get_position / set_position) over a ghost input stream whose text is an uninterpreted function of the offset (every text, every length): the constructor establishes location == (L(0),C(0)); get_char from ANY state satisfying the invariant (any offset, any eof/fail flags) returns text(off), advances the offset by one and re-establishes location == (L(off+1),C(off+1)), or returns nothing and leaves offset and location unchanged at end of input / on a failing stream; get_position returns (off, L(off), C(off)) and clears a pending eof; set_position(p) restores exactly p and get_position then returns p; a bad() stream throws the documented exception and yields no character. L/C are the line/column spec functions defined by their recurrences.',
+    note='Assumed (trusted) contracts, as executable stubs: std::basic_istream::get/tellg/seekg and std::basic_ios::bad/eof/fail/clear (machine code in libstdc++). (M) induction over the interleaving of reads and restores. Not decided: message text formatting (iostream).')
 NA = {}
 props = [json.loads(l) for l in open(os.path.join(V, 'properties.jsonl'))]
 na_reasons = json.load(open(os.path.join(V, 'tools', 'not_applicable.json')))
